@@ -221,7 +221,7 @@ class Reader:
     def expand(self, s, variadic):
         if ALL in s:
             return list(self.params) + (["*"] if variadic else [])
-        return [p for p in self.params if p in s]
+        return [p for p in self.params if p in s] + (["*"] if ("*" in s and variadic) else [])
 
 
 class MustReader(Reader):
@@ -272,10 +272,11 @@ class MustReader(Reader):
         for i, st in enumerate(stmts):
             if isinstance(st, (ast.FunctionDef, ast.AsyncFunctionDef, ast.ClassDef, ast.Import, ast.ImportFrom, ast.Pass, ast.Global, ast.Nonlocal)):
                 continue
-            if isinstance(st, (ast.Return, ast.Raise)):
-                for v in (getattr(st, "value", None), getattr(st, "exc", None)):
-                    if v is not None:
-                        out |= self._expr(v, ctx)
+            if isinstance(st, ast.Raise):
+                return out, "raise"  # a path that raises mints no name: neutral in intersections
+            if isinstance(st, ast.Return):
+                if st.value is not None:
+                    out |= self._expr(st.value, ctx)
                 return out, True
             if isinstance(st, ast.If):
                 out |= self._expr(st.test, ctx)
@@ -285,13 +286,21 @@ class MustReader(Reader):
                     continue
                 if bterm:
                     rest, rterm = self._block(list(st.orelse) + list(stmts[i + 1:]), ctx)
-                    out |= self._inter(body, rest)
-                    return out, rterm
+                    if bterm == "raise":
+                        out |= rest
+                    elif rterm == "raise":
+                        out |= body
+                    else:
+                        out |= self._inter(body, rest)
+                    return out, (rterm if bterm == "raise" else (True if rterm == "raise" else rterm))
                 orelse, oterm = self._block(st.orelse, ctx)
                 if oterm:
                     # the else branch leaves: what follows runs only after `body`
                     rest, rterm = self._block(list(stmts[i + 1:]), ctx)
-                    out |= self._inter(body | rest, orelse)
+                    if oterm == "raise":
+                        out |= body | rest
+                    else:
+                        out |= self._inter(body | rest, orelse)
                     return out, rterm
                 out |= self._inter(body, orelse)
                 continue
@@ -304,7 +313,7 @@ class MustReader(Reader):
                     return out, True
                 continue
             if isinstance(st, (ast.For, ast.AsyncFor)):
-                out |= self._expr(st.iter, ctx)
+                out |= self._expr(st.iter, ctx, self._is_self_read(st.iter, ctx[2]))
                 out |= self._block(st.body, ctx)[0]
                 continue
             if isinstance(st, ast.While):
@@ -333,16 +342,40 @@ class MustReader(Reader):
         )
 
     # ---- expressions
-    def _expr(self, e, ctx):
+    # A read only counts when the operand's VALUE can reach the name intact.  It does not when the operand is
+    #   * anywhere under a call that keeps only a summary:            len(x), type(x), bool(x), isinstance(x, T), hash/id, any/all/min/max/sum
+    #   * the direct argument of a call that drops part of a mapping/sequence: sorted(d), list(d), tuple(d), set(d), frozenset(d), iter(d), enumerate(d)
+    #     (a dict operand would contribute its KEYS only), or is iterated directly (`for k in self.d`)
+    #   * accessed through an attribute other than its name/token/.items(), or subscripted (`self.d.keys()`, `self.t[0]`)
+    ALWAYS_LOSSY = {"len", "type", "bool", "isinstance", "hash", "id", "any", "all", "min", "max", "sum", "callable", "repr_type"}
+    DIRECT_LOSSY = {"sorted", "list", "tuple", "set", "frozenset", "iter", "enumerate", "reversed"}
+    OK_ATTRS = {"_name", "name", "deterministic_token", "_determ_token", "items", "__dask_tokenize__"}
+
+    def _is_self_read(self, e, selfname):
+        """`self.X` with X an OPERAND (a parameter no class shadows), `self.operands`, `self.operand("X")`: an expression
+        whose value is an operand itself.  Derived members (properties) are followed instead: a projection of a derived
+        value (`self._info[1]`, `self._meta.dtype`) is how names are normally assembled."""
+        if isinstance(e, ast.Attribute):
+            v = e.value
+            if isinstance(v, ast.Name) and v.id == selfname:
+                if e.attr == "operands":
+                    return True
+                return e.attr in self.params and _owner(self.cls, e.attr) is None
+        if isinstance(e, ast.Call):
+            f = e.func
+            return isinstance(f, ast.Attribute) and f.attr == "operand" and isinstance(f.value, ast.Name) and f.value.id == selfname
+        return False
+
+    def _expr(self, e, ctx, lossy=False):
         owner, stack, selfname = ctx
         if e is None:
             return set()
         if isinstance(e, ast.Lambda):
             return set()
         if isinstance(e, ast.IfExp):
-            return self._expr(e.test, ctx) | self._inter(self._expr(e.body, ctx), self._expr(e.orelse, ctx))
+            return self._expr(e.test, ctx, lossy) | self._inter(self._expr(e.body, ctx, lossy), self._expr(e.orelse, ctx, lossy))
         if isinstance(e, ast.BoolOp):
-            out = self._expr(e.values[0], ctx)
+            out = self._expr(e.values[0], ctx, lossy)
             return out
         if isinstance(e, ast.Call):
             f = e.func
@@ -352,30 +385,57 @@ class MustReader(Reader):
                 and isinstance(f.value, ast.Name)
                 and f.value.id == selfname
             ):
+                if lossy:
+                    return set()
                 if e.args and isinstance(e.args[0], ast.Constant) and isinstance(e.args[0].value, str):
                     return {e.args[0].value}
                 return {ALL}
+            if isinstance(f, ast.Name) and f.id in self.ALWAYS_LOSSY:
+                out = set()
+                for a in e.args:
+                    out |= self._expr(a, ctx, True)
+                return out
+            if isinstance(f, ast.Name) and f.id in self.DIRECT_LOSSY:
+                out = set()
+                for a in e.args:
+                    out |= self._expr(a, ctx, lossy or self._is_self_read(a, selfname))
+                for k in e.keywords:
+                    out |= self._expr(k.value, ctx, lossy)
+                return out
+        if isinstance(e, ast.Subscript) and self._is_self_read(e.value, selfname):
+            v = e.value
+            tail = (
+                isinstance(v, ast.Attribute) and v.attr == "operands" and isinstance(e.slice, ast.Slice)
+                and e.slice.lower is not None and e.slice.upper is None
+            )
+            out = {"*"} if (tail and not lossy) else set()
+            return out | self._expr(e.slice, ctx, lossy)
         if isinstance(e, ast.Attribute):
             v = e.value
+            if self._is_self_read(v, selfname) and e.attr not in self.OK_ATTRS:
+                # `self.X.attr`: only a projection of X reaches the name
+                return self._expr(v, ctx, True)
             is_self = isinstance(v, ast.Name) and v.id == selfname
             is_super = isinstance(v, ast.Call) and isinstance(v.func, ast.Name) and v.func.id == "super"
             if is_self or is_super:
                 a = e.attr
-                if a == "operands":
-                    return {ALL}
                 if a == "operand" or a in self.stop or a in GENERIC_DRIVERS:
                     return set()
+                if lossy:
+                    return set()
+                if a == "operands":
+                    return {ALL}
                 return set(self.reads(a, after=owner if is_super else None, stack=stack))
         out = set()
         for ch in ast.iter_child_nodes(e):
             if isinstance(ch, ast.expr):
-                out |= self._expr(ch, ctx)
+                out |= self._expr(ch, ctx, lossy)
             elif isinstance(ch, ast.comprehension):
-                out |= self._expr(ch.iter, ctx)
+                out |= self._expr(ch.iter, ctx, lossy or self._is_self_read(ch.iter, selfname))
                 for c in ch.ifs:
-                    out |= self._expr(c, ctx)
+                    out |= self._expr(c, ctx, lossy)
             elif isinstance(ch, ast.keyword):
-                out |= self._expr(ch.value, ctx)
+                out |= self._expr(ch.value, ctx, lossy)
         return out
 
 
